@@ -144,6 +144,13 @@ def run(ctx, chk, tier):
             chk.violation("R12.1", BSQ, label + ":flags", "%s/%s" % tuple(show(f) if f is not None else "?" for f in flags), "self.score_class/self.equal_class", ctx.where(BSQ))
     if nsites < 9:
         chk.unknown("R12.1", "only %d sampling paths with a GroupScores construction analysed" % nsites)
+    getitem_rule(ctx, chk)
+    group_cm_rule(ctx, chk)
+    rest(ctx, chk)
+
+
+def getitem_rule(ctx, chk):
+    ev = ctx.ev
     # ---------------- R12.2 __getitem__
     g = Sym("group", ("param_scalar", "notnone"))
     ev.assume = [App("in", (g, GROUPS))]
@@ -171,6 +178,10 @@ def run(ctx, chk, tier):
     outs = ctx.explore(lambda: ev.call(ctx.method(ctx.scores_obj("neg", "pos", GROUP), "__getitem__"), [g], {}), chk)
     if any(o.kind == "raise" and isinstance(o.value, App) and o.value.fn == "ValueError" for o in outs):
         chk.hold("R12.2", "getitem:unknown-group", "unknown group raises ValueError", nontrivial=False)
+
+
+def group_cm_rule(ctx, chk):
+    ev = ctx.ev
     # ---------------- R12.3 group_cm / groupwise
     marker = []
 
@@ -209,6 +220,10 @@ def run(ctx, chk, tier):
     if not ok:
         chk.violation("R12.3", gq, "group_cm", show(rets[0].value.attrs.get("matrix"), 200) if rets and isinstance(rets[0].value, Obj) else "?",
                       "per-group matrices stacked on a new leading axis in the order of self.groups", ctx.where(gq))
+
+
+def rest(ctx, chk):
+    ev = ctx.ev
     # ---------------- R12.4 by-group uses the non-stratified sampler per group
     hit = 0
     for label, o in c11.sample_outcomes(ctx, chk, flags=("neg", "pos"), classes=(GROUP,)):
